@@ -1,4 +1,5 @@
 import WindVerif.Model.Buffers
+import WindVerif.Model.BuffersFail
 import WindVerif.Model.RingSeq
 import WindVerif.Drv.Common
 namespace WindVerif.Drv
@@ -19,17 +20,39 @@ def bufStep (b : Buf) (ws : List String) : Buf × String :=
   | ["len"] => (b, s!"ret {b.len}")
   | _ => (b, "bad-op")
 
-def pbufStep (b : PBuf) (ws : List String) : PBuf × String :=
+/-- `PrintBuffer` with a stream that can be told to fail: the model state and the (absolute) numbers of the value-write
+attempts that fail.  Without `failat` the stream never fails and the machine is the old one (`C15.agrees_when_ok`). -/
+structure PDrv where
+  st    : PBufF
+  fails : List Nat
+
+def PDrv.ok (d : PDrv) : Nat → Bool := fun n => !(d.fails.contains n)
+
+def pbufStep (d : PDrv) (ws : List String) : PDrv × String :=
   match ws with
   | ["print", i, x] => match i.toNat?, x.toNat? with
-    | some i, some x => let (b', r) := b.print i x; (b', if r then "ret 1" else "ret 0")
-    | _, _ => (b, "bad-op")
-  | ["flush"] => (b.flush, "ok")
-  | ["clear"] => (b.clear, "ok")
-  | ["wf"] => (b, s!"ret {b.wf}")
-  | ["len"] => (b, s!"ret {b.len}")
-  | ["out"] => (b, "list " ++ showNats b.out)
-  | _ => (b, "bad-op")
+    | some i, some x =>
+      let (s', r) := d.st.printF d.ok i x
+      ({ d with st := s' }, match r with
+        | .ok true => "ret 1"
+        | .ok false => "ret 0"
+        | .error _ => "err OSError")
+    | _, _ => (d, "bad-op")
+  | ["flush"] =>
+    let (s', r) := d.st.flushF d.ok
+    ({ d with st := s' }, match r with
+      | .ok _ => "ok"
+      | .error _ => "err OSError")
+  | ["clear"] => ({ d with st := d.st.clear }, "ok")
+  -- `failat k`: of the value writes attempted from now on, number `k` (counted from 0: `failat 0` = the very next one) fails, once
+  | ["failat", k] => match k.toNat? with
+    | some k => ({ d with fails := (d.st.att + k) :: d.fails }, "ok")
+    | none => (d, "bad-op")
+  | ["wf"] => (d, s!"ret {d.st.wf}")
+  | ["len"] => (d, s!"ret {d.st.len}")
+  | ["out"] => (d, "list " ++ showNats d.st.out)
+  | ["att"] => (d, s!"ret {d.st.att}")
+  | _ => (d, "bad-op")
 
 def seqErr : SeqErr → String
   | .indexError => "IndexError"
@@ -76,7 +99,7 @@ def ringStep (r : Ring) (ws : List String) : Ring × String :=
   | _ => (r, "bad-op")
 
 def bufMachine : Machine := { σ := Buf, init := Buf.empty, step := bufStep }
-def pbufMachine : Machine := { σ := PBuf, init := PBuf.empty, step := pbufStep }
+def pbufMachine : Machine := { σ := PDrv, init := ⟨PBufF.empty, []⟩, step := pbufStep }
 def ringMachine : Machine := { σ := Ring, init := Ring.new 1, step := ringStep }
 
 end WindVerif.Drv
